@@ -3,6 +3,7 @@ import AcraModel.Censor.Session
 import AcraModel.Censor.Match
 import AcraModel.Censor.Generalise
 import AcraModel.Censor.MatchTyping
+import AcraModel.Censor.MatchWalk
 /-! Driver ops for C05 (acra-censor): the very definitions `Props/C05.lean` is about. -/
 namespace Driver.C05
 open AcraModel AcraModel.Censor Generated.CensorTable
@@ -169,6 +170,21 @@ def handle (op : String) (args : List String) : Option String :=
   | "match", [p, s] => do
     match ← patOf p, ← stmtOf s with
     | some p, ⟨_, some q⟩ => pure (toString (Match.patMatch q.ast p))
+    | _, _ => pure "err"
+  | "tableok", [] => some (toString Match.tableFactsOk)
+  | "identsound", [p, s] => do
+    match ← patOf p, ← stmtOf s with
+    | some p, ⟨_, some q⟩ =>
+      let cs := Match.compared q.ast p
+      let leafTxt (fn : String) (x : Tree) : String :=
+        if fn == "areEqualTableIdent" then hexOf (Match.fld x "v").leafBytes
+        else if fn == "areEqualColIdent" then hexOf (Match.fld x "val").leafBytes
+        else hexOf (Match.fld x "Val").leafBytes
+      match cs.find? (fun e => !Match.leafHolds e) with
+      | some e => pure s!"mismatch {e.2.1} {leafTxt e.2.1 e.2.2.1} {leafTxt e.2.1 e.2.2.2}"
+      | none =>
+        let cnt (fn : String) := (cs.filter fun e => e.2.1 == fn).length
+        pure s!"ok {cnt "areEqualTableIdent"} {cnt "areEqualColIdent"} {cnt "areEqualSQLVal"}"
     | _, _ => pure "err"
   | "tablekinds", [] => some (",".intercalate tableKinds)
   | "typed", [s] => do
